@@ -56,6 +56,19 @@ def run():
         pats = [ses.rnd.choice(exh) if exh and ses.rnd.random() < 0.5 else ses.rnd.choice(texts)
                 for _ in range(k)]
         negs.append((pats, ses.rnd.choice(["any_text", "any_glob", "any_nested", "any_owned"])))
+    # sibling nested combinators / nested alternations with several branches each (the negation is
+    # flattened into its alternatives before it is partitioned)
+    simple = [t for t in texts if len(t) <= 8 and "{" not in t and "<" not in t and "," not in t and t]
+    pool = (exh[:] if exh else []) + simple
+    for _ in range(200 if tier() == "quick" else 4000):
+        pats = [ses.rnd.choice(pool) for _ in range(ses.rnd.choice([3, 4, 4, 5]))]
+        negs.append((pats, "any_nested_pairs"))
+        a, b, c, d = (ses.rnd.choice(simple) for _ in range(4))
+        negs.append((["{{%s,%s},{%s,%s}}" % (a, b, c, d)], ses.rnd.choice(["single", "glob"])))
+        negs.append((["{%s,{%s,%s},{%s,{%s,%s}}}" % (a, b, c, d, a, c)], "single"))
+    for pats in (["a/**", "*.rs", "*.pdf", "*.tex"], ["x", "y/**", "z", "**/w"], ["a", "b", "c", "d", "e"]):
+        negs.append((pats, "any_nested_pairs"))
+        negs.append((["{{%s,%s},{%s,%s}}" % tuple(pats[:4])], "single"))
     negs.append(([""], "single"))
     negs.append((["", "a/**"], "any_text"))
     rows = probe([{"op": "not", "pats": p, "mode": m} for p, m in negs])
@@ -83,6 +96,7 @@ def run():
         elif status == "sat":
             wit.append((key, w))
     fs_replayed = 0
+    deferred = []
     for (kind, k), w in wit:
         pats, mode, row, E, N = live[k]
         ex, nex = row["parts"]["ex"], row["parts"]["nex"]
@@ -150,7 +164,12 @@ def run():
                 got = set(i["relative"] for i in wr["items"] if not i.get("error"))
                 record["real_walk_yields_descendant"] = w in got
                 if w in got:
-                    raise Inconclusive("real walk yields %r under not(%s): tree clause witness does not reproduce end to end" % (w, label))
+                    # the languages say the directory is discarded as a tree, the real walk still
+                    # yields the descendant: not this clause's violation (the verdict step below and
+                    # C13 decide whether the tree verdict was issued); the run is inconclusive unless
+                    # a violation is reported besides
+                    deferred.append("real walk yields %r under not(%s): tree clause witness does not reproduce end to end" % (w, label))
+                    continue
         rep.candidate(roles, {"short": record})
     for k in list(live)[:900:90]:
         pats, mode, row, _, _ = live[k]
@@ -171,7 +190,7 @@ def run():
         "functions_encoded": ["FileIterator::not", "FilterAny::any", "FilterAnyProgram::try_from_partitions",
                                "Token::is_exhaustive", "Checked::into_alternatives", "crate::any",
                                "FilterAny::residue (Kani)", "FilterAnyProgram::residue (Kani)"]},
-        inconclusive=kinc)
+        inconclusive=kinc or ("; ".join(deferred[:3]) if deferred else None))
 
 
 if __name__ == "__main__":
